@@ -218,6 +218,12 @@ func (e *Enc) declFun(name string, args []string, ret string) string {
 	e.declSort(ret)
 	e.declared[name] = "fun"
 	e.emit("(declare-fun " + name + " (" + strings.Join(args, " ") + ") " + ret + ")")
+	if name == "strlen" {
+		// lengths are non-negative and only the empty string (the zero value of the string type) has length 0
+		z := e.zero("Str")
+		e.emit("(assert (forall ((s Str)) (! (and (>= (strlen s) 0) (=> (= (strlen s) 0) (= s " + z + "))) :pattern ((strlen s)))))")
+		e.emit("(assert (= (strlen " + z + ") 0))")
+	}
 	return name
 }
 
@@ -370,9 +376,12 @@ func (e *Enc) typeAssume(st *State, lf Leaf, t string) {
 			e.assertTyping("(<= " + t + " " + st.alloc + ")")
 		}
 	case *types.Slice:
-		switch lf.Path {
-		case ".base":
+		switch {
+		case strings.HasSuffix(lf.Path, ".base"):
 			e.assertTyping("(<= " + t + " " + st.alloc + ")")
+		case strings.HasSuffix(lf.Path, ".len"), strings.HasSuffix(lf.Path, ".cap"), strings.HasSuffix(lf.Path, ".off"):
+			// lengths, capacities and offsets are Go ints
+			e.assertTyping("(and (<= 0 " + t + ") (<= " + t + " 9223372036854775807))")
 		}
 	}
 }
@@ -570,7 +579,7 @@ func (e *Enc) globalRef(g *ssa.Global) string {
 	if _, ok := e.declared[n]; !ok {
 		e.declConst(n, "Int")
 		e.assert("(< " + n + " 0)")
-		for other := range e.globalRefs {
+		for _, other := range sortedKeys(e.globalRefs) {
 			if other != k {
 				on := sym("gref!" + other)
 				if _, ok := e.declared[on]; ok {
@@ -659,13 +668,29 @@ func (e *Enc) analyze(fr *Frame) {
 	seen := map[int]bool{}
 	var post []*ssa.BasicBlock
 	var dfs func(b *ssa.BasicBlock)
+	// successors that stay inside a loop containing b are visited LAST, so that (in reverse postorder) a loop's body
+	// precedes the code after the loop: the obligations generated inside the body then do not carry the definitions of
+	// the code that follows the loop in their prefix
+	inLoopWith := func(b, s *ssa.BasicBlock) bool {
+		for _, li := range fr.loops {
+			if li.body[b.Index] && li.body[s.Index] {
+				return true
+			}
+		}
+		return false
+	}
 	dfs = func(b *ssa.BasicBlock) {
 		seen[b.Index] = true
-		for _, s := range b.Succs {
-			if fr.backEdge[[2]int{b.Index, s.Index}] || seen[s.Index] {
-				continue
+		for pass := 0; pass < 2; pass++ {
+			for _, s := range b.Succs {
+				if fr.backEdge[[2]int{b.Index, s.Index}] || seen[s.Index] {
+					continue
+				}
+				if inLoopWith(b, s) != (pass == 1) {
+					continue
+				}
+				dfs(s)
 			}
-			dfs(s)
 		}
 		post = append(post, b)
 	}
